@@ -576,7 +576,9 @@ func (fc *FnCtx) evalCall(env *specEnv, x *ast.CallExpr) Val {
 				return Val{T: app("len", a.T), Sort: sortInt, Ty: types.Typ[types.Int]}
 			case *types.Map:
 				_, _, l := fc.mapKeys(t)
-				return Val{T: ite(eq(a.T, "0"), "0", app("select", fc.heapGet(env.st, l), a.T)), Sort: sortInt, Ty: types.Typ[types.Int]}
+				raw := app("select", fc.heapGet(env.st, l), a.T)
+				// map lengths are never negative (the length heap itself is unconstrained)
+				return Val{T: ite(or(eq(a.T, "0"), app("<", raw, "0")), "0", raw), Sort: sortInt, Ty: types.Typ[types.Int]}
 			}
 		}
 		if a.Sort == sortStr {
